@@ -240,7 +240,7 @@ def rand_run(rng, fmt, kind, *, calls=None, iters=None, value_classes=None, dist
     if cb is not None and cb[0] == 'builtin' and rng.random() < 0.5:
         # the callback instantiated with the checkpoint's base class (without the engine), as the library's examples do
         s.insert(-1, ['cbbase', 1]); classes.append('callback_on_base_class')
-    if rng.random() < 0.12:
+    if rng.random() < 0.2:
         # while a point is evaluated the integrand runs a small integration of its own (same integrator, same template instantiation)
         s.insert(-1, ['nest', 1]); classes.append('nested_integration')
     if rng.random() < 0.2:
@@ -1205,6 +1205,7 @@ def gen_C01(c, rng, tier):
                     n = bm ** dims * cm
                     s = spec_run('mc', fmt, dims=dims, channels=channels, raw=raws, chk=['weights', [fmt.rtok(w) for w in ws], fmt.rtok(minw), fmt.rtok(Fraction(1, 4))],
                                  f=f, mp=rand_map_grid(rng, fmt, channels, dims, dyadic=aligned), ops=[['run', [n]], ['dump']])
+                    if rng.random() < 0.5: s.insert(-1, ['mapearly', 1])      # the map writes its densities in the coordinate call already (as the examples do)
                     c.add(t, 'run', s, classes=['lattice_mc', 'channels_%d' % channels] + (['minimum_weight_active'] if minw else []) + (['aligned_channel_grids'] if aligned else []),
                           nontrivial=channels >= 2, lattice={'kind': 'mc', 'n': n, 'exact': (aligned or sum(1 for w in ws if w) == 1) and (bool(minw) or all((4 * w / sum(ws)).denominator == 1 for w in ws))})
                 else:
@@ -1218,6 +1219,26 @@ def gen_C01(c, rng, tier):
                         chk = ['plain']
                     s = spec_run(kind, fmt, dims=dims, raw=raws, chk=chk, f=f, ops=[['run', [n]], ['dump']])
                     c.add(t, 'run', s, classes=['lattice_' + kind], nontrivial=(kind == 'vegas'), lattice={'kind': kind, 'n': n})
+        # multi-channel lattice runs with disabled channels and a map that writes all densities in the coordinate call (as the library's
+        # examples do) and only returns the jacobian when asked for densities
+        for _ in range(scale(tier, 3, 20)):
+            dims = 1; bm = 32; cm = 4; f = rand_poly(rng, fmt, dims)
+            channels = rng.choice([2, 3, 4])
+            ks = [rng.choice([0, 0, 1, 2]) for _ in range(channels)]
+            if sum(ks) == 0: ks[rng.randrange(channels)] = 2
+            if all(ks): ks[rng.randrange(channels)] = 0
+            ks = [k * 4 // sum(ks) if (k * 4) % sum(ks) == 0 else k for k in ks]
+            ws = [Fraction(k) for k in ks]
+            raws = []
+            for u in [Fraction(2 * j + 1, 2 * bm) for j in range(bm)]:
+                for uc in [Fraction(2 * j + 1, 2 * cm) for j in range(cm)]:
+                    raws += [raw_of(u), raw_of(uc)]
+            n = bm * cm
+            s = spec_run('mc', fmt, dims=dims, channels=channels, raw=raws, chk=['weights', [fmt.rtok(w) for w in ws], fmt.rtok(0), fmt.rtok(Fraction(1, 4))],
+                         f=f, mp=rand_map_grid(rng, fmt, channels, dims, dyadic=True), wants=(1 if rng.random() < 0.5 else 0), ops=[['run', [n]], ['dump']])
+            s.insert(-1, ['mapearly', 1])
+            c.add(t, 'run', s, classes=['lattice_mc', 'channels_%d' % channels, 'disabled_channel', 'map_writes_densities_early', 'aligned_channel_grids'],
+                  lattice={'kind': 'mc', 'n': n, 'exact': all((4 * w / sum(ws)).denominator == 1 for w in ws)})
         # VEGAS lattice runs on grids adapted by real refinements: two adaptive iterations on pseudo-random numbers, then the lattice
         for _ in range(scale(tier, 3, 20)):
             dims = rng.choice([1, 2]); bm = 8 if dims == 2 else 32
